@@ -588,7 +588,7 @@ def worlds(tier):
     for script, rich in (("reseal", ["deep", "names", "prefix", "levels", "wide", "siblings"]), ("edit", ["deep", "names", "siblings", "links"]), ("missing", ["deep", "prefix", "wide", "case"])):
         for ti, tree in enumerate(all_trees if thorough else rich):
             nn = len(tree_nested(tree))
-            for ni in range(nn) if thorough else [(nn - 1) if (script == "reseal" or ti % 2) else 0]:
+            for ni in sorted({0, nn - 1}) if thorough else [(nn - 1) if (script == "reseal" or ti % 2) else 0]:
                 add(script, tree, ni)
     for script in ("ignore", "sf", "formats", "many", "rename", "latenest", "tz"):
         for ni in (0, 2) if (thorough and script != "latenest") else (0,):
@@ -628,8 +628,13 @@ def variants(world, tier, idx):
         return (locs[i % len(locs)], SPELLS[(i * 3 + 1) % len(SPELLS)], (ORDERS + ["shuf2", "shuf3", "perm5", "perm23"])[(i * 7 + 2) % (len(ORDERS) + 4)])
 
     if tier == "thorough":
-        chosen = must + single + [combo(idx + 3 * j) for j in range(8)]
-        chosen += [(("base", "uni")[k % 2], ("abs", "rel")[(k // 2) % 2], f"perm{k}") for k in (1, 2, 3, 4, 5, 7, 11, 23, 119, 719, 5039)]
+        if script not in ("seal", "ignore", "sf", "missing", "renamedup"):  # half of the single-dimension variants, alternating
+            single = [v for j, v in enumerate(single) if (j + idx) % 2 == 0]
+        perms = (1, 2, 3, 4, 5, 7, 11, 23, 119, 719, 5039)
+        if tree not in ("wide", "siblings") and script != "many":
+            perms = [perms[(idx + j * 3) % len(perms)] for j in range(3)]
+        chosen = must + single + [combo(idx + 3 * j) for j in range(5)]
+        chosen += [(("base", "uni")[k % 2], ("abs", "rel")[(k // 2) % 2], f"perm{k}") for k in perms]
     else:
         chosen = must + [single[(idx * 5) % len(single)], combo(idx), combo(idx * 5 + 7)]
         if script in ("many", "latenest") or tree == "siblings":  # where the order of enumeration has most to act on
@@ -665,8 +670,8 @@ def main():
         rule="case = (command script, tree, nested-history placement, format set) x one variant (location of the root, spelling of the "
         "root argument, directory enumeration order), compared byte for byte (all files of all ascmhl folders, all exit codes) with the "
         "reference run of the same script (neutral ancestors, absolute path, OS order) under the same frozen clock and the same mtimes; "
-        "copy cases = the finished reference tree copied to another location: verify (root and every nested root) must exit 0 if the last "
-        "whole-folder create succeeded (else as at the origin), and a further create there must equal the same create on a neutral copy; "
+        "copy cases = the finished reference tree copied to another location: verify of the root must exit 0 if the last "
+        "whole-folder create succeeded (else as at the origin; nested roots and verify -dh: as at the origin), and a further create there must equal the same create on a neutral copy; "
         "non-trivial = distinct (script, tree, placement, formats, location, spelling, order)",
         bound="13 trees (<= 12 entries, depth <= 4, spaces / NFC+NFD / XML-special / U+2028 names, prefix siblings, case pairs, file symlinks, "
         "empty tree, 1 MiB files in thorough), <= 4 nested histories up to 3 deep, 11 scripts of 1-13 commands (re-seal, same-size same-mtime edit "
@@ -675,7 +680,7 @@ def main():
         "patterns in use (ascmhl, .DS_Store, twice ascmhl, *.txt-like, dir pattern, slash pattern, non-ASCII, XML-special, 200+ chars, inside "
         "another history, symlinked ancestor, symlinked root, other root name, root called ascmhl), 12 spellings (absolute, /, //, /., /./, "
         "relative, ./x, x/, ., ./, ../x, parent/x), orders: reverse, rotate, halves, odd-even, seeded shuffles, sorted, k-th permutations "
-        "(thorough); quick samples 4-6 variants + 1 copy per world, thorough runs every single-dimension variant, 19 combinations and 4 copies per world",
+        "(thorough); quick samples 4-6 variants + 1 copy per world, thorough runs every (for the longer scripts every second) single-dimension variant, 8-16 combinations and 3 copies per world",
     )
     from freezegun import freeze_time
 
@@ -687,7 +692,7 @@ def main():
             script, tree, ni, fmts = world
             wid = f"{script}/{tree}/{ni}/{'+'.join(fmts)}"
             vs = variants(world, run.tier, idx)
-            nc = 4 if run.tier == "thorough" else 1
+            nc = 3 if run.tier == "thorough" else 1
             cs = [COPIES[(idx * nc + j) % len(COPIES)] for j in range(nc)]
             ids = [f"{wid}/ref"] + [f"{wid}/{l}/{s}/{o}" for l, s, o in vs] + [f"{wid}/copy/{l}/{s}/{o}" for l, s, o in cs]
             if not any(run.want(i) for i in ids):
@@ -735,9 +740,10 @@ def main():
                     codes = [e[1] for e in ex[: 1 + len(nroots)]]
                     dh = ex[1 + len(nroots)][1]
                     for sub, code, oc in zip(["."] + nroots, codes, origin):
-                        if ref.sealed and code != 0:
+                        # the statement's 'sealed tree' is the root; a nested root (which the outer patterns may exclude) is only compared
+                        if ref.sealed and code != 0 and sub == ".":
                             run.violation(cid, f"{where}: verify of {sub!r} exits {code}, expected 0 for a sealed tree (at the origin it exits {oc})", "copy/verify-exit", inp=inp)
-                        elif not ref.sealed and code != oc:
+                        elif code != oc:
                             run.violation(cid, f"{where}: verify of {sub!r} exits {code}, at the origin it exits {oc}", "copy/verify-differs", inp=inp)
                     if dh != origin_dh:
                         run.violation(cid, f"{where}: verify -dh exits {dh}, at the origin it exits {origin_dh}", "copy/verify-dh-differs", inp=inp)
@@ -774,6 +780,11 @@ def _continue(run, clock, vt, src, loc, how, order, verify_first=None):
         c.verify(opts=["-dh"])
     c.step = src.step + 10  # the same clock for the further generation wherever it is made
     c.create()
+    # a recorded file disappears from the copy: the verdict of verify must again be the same wherever the copy lies
+    gone = next((f for f in c.files if os.path.isfile(c.p(f))), None)
+    if gone is not None:
+        c.rm(gone)
+        c.verify()
     return c.exits, collect(c.built), c
 
 
